@@ -11,6 +11,7 @@ import Gsp.Model.Codec
 import Gsp.Model.HasherCfg
 import Gsp.Model.Claim
 import Gsp.Model.Verify
+import Gsp.Model.Resolve
 import Gsp.Model.Loader
 import Gsp.Model.Json
 import Gsp.Model.Schema
@@ -380,11 +381,22 @@ def statusAnswerOf (j : Json) : Except String (Except String Verify.StatusAnswer
     let mtp ← proofOf (← a.getObjVal? "mtp")
     pure (.ok ⟨treeStateOf (← a.getObjVal? "issuer"), mtp⟩)
 
+def vmOf (j : Json) : Resolve.VM :=
+  ⟨(jstr j "tp").toOption.getD "",
+   match j.getObjVal? "published" with
+   | .ok (.bool b) => some b
+   | _ => none⟩
+
+/-- the resolver's answer: an error, or the verification methods of its document as they stand (the model picks the
+    state entry, `Resolve.stateInfo`), or - older form - the `published` member the harness picked -/
 def resolvedOf (j : Json) : Verify.Resolved :=
   match j with
   | .str "noStateInfo" => .noStateInfo
   | .str _ => .error
-  | o => match o.getObjVal? "published" with
+  | o => match o.getObjVal? "vms" with
+   | .ok (.arr vs) => Resolve.resolvedOf (.ok (vs.toList.map vmOf))
+   | _ =>
+    match o.getObjVal? "published" with
     | .ok (.bool b) => .published (some b)
     | .ok .null => .published none
     | _ => .error
@@ -434,6 +446,24 @@ def opVerifySmt (k : Pos.Consts) (inp : Json) : Except String Json := do
     resolved := resolvedOf (← inp.getObjVal? "resolved")
     genesis := exceptBoolOf (← inp.getObjVal? "genesis") }
   pure (outcomeJ (Verify.smtProof (treeHash k) (H3of k) b))
+
+def registryOpOf (j : Json) : Except String Resolve.Op := do
+  let o ← jstr j "o"
+  let own ← (← j.getObjVal? "own").getBool?
+  let t ← jstr j "t"
+  match o with
+  | "register" => pure (.register own t (← (← j.getObjVal? "res").getNat?))
+  | "delete" => pure (.delete own t)
+  | "resolve" => pure (.resolve own t)
+  | _ => throw s!"registry op {o}"
+
+/-- a history over the verifier's own status-resolver registry and the process-wide default one: per lookup the resolver asked, or `err` -/
+def opRegistryRun (inp : Json) : Except String Json := do
+  let ops ← (← (← inp.getObjVal? "ops").getArr?).toList.mapM registryOpOf
+  let outs := (Resolve.run {} ops).filterMap id
+  pure (okJ (Json.arr (outs.map fun
+    | some res => Json.num (JsonNumber.fromNat res)
+    | none => Json.str "err").toArray))
 
 def opVerifyStatus (k : Pos.Consts) (inp : Json) : Except String Json := do
   let ans ← statusAnswerOf (← inp.getObjVal? "answer")
@@ -637,6 +667,7 @@ def handle (k : Pos.Consts) (op : String) (inp : Json) : Except String Json :=
   | "verify.smtp" => opVerifySmt k inp
   | "verify.status" => opVerifyStatus k inp
   | "verify.http" => opVerifyHttp inp
+  | "registry.run" => opRegistryRun inp
   | "cred.view" => opCredView inp
   | "ctx.paths" => opCtxPaths inp
   | "ctx.typeid" => opCtxTypeId inp
